@@ -1,0 +1,16 @@
+//go:build verif
+
+package rueidis
+
+import "sync/atomic"
+
+// VerifPipeState reports the life-cycle words of a pipe handed to a verif hook (obj of the "pipe.*" hook points):
+// state (0 new, 1 pipelining, 2 closing, 3 dead, 4 closed), bgState (1 once the background loops were started) and the
+// number of callers currently inside Do/DoMulti/Close (waits).  ok is false when obj is not a pipe.
+func VerifPipeState(obj any) (state, bgState int32, waits uint32, ok bool) {
+	p, ok := obj.(*pipe)
+	if !ok || p == nil {
+		return 0, 0, 0, false
+	}
+	return atomic.LoadInt32(&p.state), atomic.LoadInt32(&p.bgState), p.loadWaits(), true
+}
